@@ -18,13 +18,55 @@ def registry():
     return _REG
 
 
+def _pack_one(o):
+    txt = solve.to_smt2(o.pc, o.goal, get_model=True)
+    return {"name": o.name, "kind": o.kind, "at": o.where, "clause": o.text, "props": list(o.props),
+            "smt2": txt, "core": solve.core_text(txt, getattr(o, "nglob", 0))}
+
+
+def _pack_forked(sel, n):
+    """Serialising a VC to SMT-LIB text costs ~30 ms: for functions with many obligations do it in n forked children
+    (each handles every n-th obligation and hands its texts back through a temporary file)."""
+    import os, pickle, tempfile
+    d = tempfile.mkdtemp(prefix="pyvc-pack-")
+    pids = []
+    for k in range(n):
+        pid = os.fork()
+        if pid == 0:
+            code = 1
+            try:
+                part = [(i, _pack_one(o)) for i, o in enumerate(sel) if i % n == k]
+                with open(os.path.join(d, "%d.pkl" % k), "wb") as f:
+                    pickle.dump(part, f)
+                code = 0
+            finally:
+                os._exit(code)
+        pids.append(pid)
+    ok = True
+    for pid in pids:
+        _, st = os.waitpid(pid, 0)
+        ok = ok and st == 0
+    out = [None] * len(sel)
+    try:
+        if ok:
+            for k in range(n):
+                with open(os.path.join(d, "%d.pkl" % k), "rb") as f:
+                    for i, rec in pickle.load(f):
+                        out[i] = rec
+    finally:
+        import shutil
+        shutil.rmtree(d, ignore_errors=True)
+    if not ok or any(x is None for x in out):
+        return [_pack_one(o) for o in sel]
+    return out
+
+
 def _pack(obls, probes, prop):
-    out = []
-    for o in obls:
-        if prop is None or prop in o.props:
-            out.append({"name": o.name, "kind": o.kind, "at": o.where, "clause": o.text, "props": list(o.props),
-                        "smt2": solve.to_smt2(o.pc, o.goal, get_model=True),
-                        "core": solve.to_smt2(o.pc[o.nglob:], o.goal) if getattr(o, "nglob", 0) else None})
+    sel = [o for o in obls if prop is None or prop in o.props]
+    if len(sel) > 150:
+        out = _pack_forked(sel, 4)
+    else:
+        out = [_pack_one(o) for o in sel]
     pr = []
     for p in probes:
         pr.append({"name": p[0], "pc": solve.to_smt2(p[1]), "base": solve.to_smt2(p[2]) if len(p) > 2 and p[2] is not None else None})
